@@ -14,7 +14,6 @@ import (
 	"container/heap"
 	"fmt"
 	"sort"
-	"sync"
 	"sync/atomic"
 	"time"
 )
@@ -114,6 +113,13 @@ type Config struct {
 	TimerSkewPPM int64
 	// Knobs overrides for tuning constants.
 	Knobs map[string]int64
+	// BatchInstant: all events due at the same simulated instant fire before the simulator
+	// waits for quiescence (instead of one event per quiescence barrier).
+	BatchInstant bool
+	// BatchWindow (with BatchInstant): events due up to this much later fire in the same batch,
+	// i.e. early by at most the window (a timer that fires a little early is legal for code
+	// whose only oracle is the race detector; no other property uses it).
+	BatchWindow time.Duration
 }
 
 // Stats are counters measured during a run (never PRNG consuming).
@@ -137,7 +143,7 @@ type Stats struct {
 
 // Sim is one simulation instance. Exactly one may be active per process at a time.
 type Sim struct {
-	mu    sync.Mutex // real; protects everything below; never held while blocking
+	mu    InternalLock // protects everything below; never held while blocking
 	cfg   Config
 	now   time.Duration
 	q     eventHeap
@@ -147,7 +153,7 @@ type Sim struct {
 	stats Stats
 
 	// pointer registry for canonical ordering of pointer-typed map keys
-	ptrIDs  map[uintptr]uint64
+	ptrIDs  *ptrTable
 	nextPtr uint64
 	keep    []any // keeps registered pointers alive so addresses are not reused
 
@@ -179,12 +185,13 @@ func New(cfg Config) *Sim {
 		cfg:     cfg,
 		rng:     NewRand(cfg.Seed ^ 0xa5a5a5a5a5a5a5a5),
 		sched:   NewRand(cfg.Seed ^ 0x5a5a5a5a5a5a5a5a),
-		ptrIDs:  make(map[uintptr]uint64),
+		ptrIDs:  newPtrTable(),
 		waiters: make(map[*waiter]struct{}),
 		Wait:    func() {},
 		AdvanceClock: func(time.Duration) {
 		},
 	}
+	raceModeInit()
 	s.driver = goid()
 	cur.Store(s)
 	return s
@@ -285,7 +292,33 @@ func (s *Sim) Step(limit time.Duration) bool {
 	if s.OnTrace != nil && e.label != "" {
 		s.OnTrace(fmt.Sprintf("%d ev %s", int64(e.at), e.label))
 	}
+	if s.cfg.BatchInstant {
+		s.HoldSettle++ // handlers that settle themselves must not split the batch
+	}
 	e.fn()
+	if s.cfg.BatchInstant {
+		// fire everything that is due at this very instant before anybody runs: the goroutines
+		// these events wake are then runnable together (used by the race build, where activity
+		// separated by a quiescence barrier is ordered and can never be reported as a race)
+		for n := 0; n < 64; n++ {
+			s.mu.Lock()
+			for s.q.Len() > 0 && s.q[0].dead {
+				heap.Pop(&s.q)
+			}
+			if s.q.Len() == 0 || s.q[0].at > s.now+s.cfg.BatchWindow {
+				s.mu.Unlock()
+				break
+			}
+			e2 := heap.Pop(&s.q).(*event)
+			s.stats.Events++
+			s.mu.Unlock()
+			if s.OnTrace != nil && e2.label != "" {
+				s.OnTrace(fmt.Sprintf("%d ev %s", int64(e2.at), e2.label))
+			}
+			e2.fn()
+		}
+		s.HoldSettle--
+	}
 	s.Settle()
 	return true
 }
